@@ -265,6 +265,11 @@ def dt_handed_on(F, R, rule='B.C16.dt'):
             n += 1
             d = describe(b, t['args'][di], depth=5, at=bb)
             good = (own and d == 'dt') or d == '(*self).dt'
+            if not good and '::{closure' in b.path and d.replace('(', '').replace(')', '').replace('*', '').endswith('.^dt'):
+                # a closure handed to an iterator consumer: its captured `dt` is the owner's own parameter
+                ob = F.body(b.path.split('::{closure')[0])
+                dts = [l for l, nm in (ob.names.items() if ob is not None else []) if nm == 'dt' and 1 <= l <= ob.arg_count]
+                good = len(dts) == 1 and not any(s['k'] == 'assign' and s['lhs']['l'] == dts[0] for _, _, s in ob.stmts())
             R.check(good, rule, 'handed-on:%s->%s' % (b.path.split('::{closure')[0].lstrip('<').split(' as ')[0].split('::')[-2] if '::' in b.path else b.path, cp.split('::')[-2]),
                     '%s hands %s to %s as the per-frame time step, not its own dt: everything below runs at another speed' % (b.path, d[:60], cp),
                     detail={'dt': d[:60]}, where=b.where(bb), nontrivial=False)
@@ -297,6 +302,8 @@ def cover(F, R):
             from ..rules import op_sites
             fam = {'init_effects': ('init', 'init_effects'), 'init': ('init', 'init_effects')}.get(m, (m,))
             fwd = op_sites(F, b, lambda p, t: p.split('::')[-1] in fam)
+            from ..rules import op_sites_callees
+            fwd_c = op_sites_callees(F, b, lambda p, t: p.split('::')[-1] in fam)
             if not missing and not gated:
                 # each holding field is the source of (at least) one forwarding call: the loop / iterator the call sits
                 # in was built from that field, or the call's receiver is the field itself
@@ -309,12 +316,12 @@ def cover(F, R):
                     L = loop_of(b, x)
                     if L is not None:
                         srcs.append(iter_source(b, L))
-                    cpx = callee_path(t) or ''
+                    cpxs = dict(fwd_c).get(x) or [callee_path(t) or '']
                     for f in fields:
                         # a field whose items are themselves holders (the sub-tracks of a track) is served by the holder's own
                         # method - which fans out in turn, to any depth - not by reaching into the items' effects from here
                         inner = [h for h in holders if h in ftys.get(f, '')]
-                        if inner and not any(cpx.startswith(h + '::') for h in holders):
+                        if inner and not any(cpx.startswith(h + '::') for h in holders for cpx in cpxs):
                             continue
                         if any(('.' + f) in sdesc for sdesc in srcs):
                             served.add(f)
@@ -472,8 +479,8 @@ def init_sites(F, R):
             cp = callee_path(t) or ''
             if not cp.endswith('::init_effects') or cp.split('::')[-2] not in ('Track', 'SendTrack', 'MainTrack'):
                 continue
-            if b.path.endswith('::init_effects'):
-                continue  # recursive fan-out inside Track::init_effects (argument passed through)
+            if b.path.split('::{closure')[0].endswith('::init_effects'):
+                continue  # recursive fan-out inside Track::init_effects (argument passed through), also from a closure of it
             n += 1
             key = '%s|%s' % (b.path, cp.split('::')[-2])
             d = describe(b, t['args'][1])
